@@ -104,6 +104,12 @@ fn char_substring_offset(
 ) -> Result<(usize, usize), Error> {
     let len = s.chars().count();
 
+    for idx in [start, end].into_iter().flatten() {
+        if idx > len {
+            return Err(InvalidStringIndex(idx, len.saturating_sub(1)));
+        }
+    }
+
     if let (Some(start), Some(end)) = (start, end) {
         if start == end {
             return Ok((0, 0));
